@@ -295,6 +295,12 @@ func (e *Engine) step(s *State) []*State {
 			} else {
 				panic("symbolic string op")
 			}
+		case StructV:
+			r := e.structEq(s, av, b.(StructV))
+			if x.Op == token.NEQ {
+				r = not(r)
+			}
+			f.env[x] = r
 		default:
 			panic(fmt.Sprintf("binop on %T", a))
 		}
@@ -462,8 +468,24 @@ func (e *Engine) step(s *State) []*State {
 			}
 		}
 	case *ssa.Defer:
-		// spike: only lock releases are deferred in the targeted code; ignore
+		d := &deferred{cc: &x.Call}
+		for _, a := range x.Call.Args {
+			d.args = append(d.args, e.get(s, f, a))
+		}
+		if _, isB := x.Call.Value.(*ssa.Builtin); !isB {
+			if _, isF := x.Call.Value.(*ssa.Function); !isF {
+				d.recv = e.get(s, f, x.Call.Value)
+			}
+		}
+		f.defers = append(append([]*deferred(nil), f.defers...), d)
 	case *ssa.RunDefers:
+		if n := len(f.defers); n > 0 {
+			d := f.defers[n-1]
+			f.defers = f.defers[:n-1]
+			f.deferArgs, f.deferRecv = d.args, d.recv
+			e.call(s, f, d.cc, nil, true)
+			adv = false // come back to RunDefers until the stack is empty
+		}
 	case *ssa.Jump:
 		adv = false
 		e.enter(s, f, f.block, f.block.Succs[0])
@@ -496,6 +518,9 @@ func (e *Engine) step(s *State) []*State {
 			vals = append(vals, e.get(s, f, r))
 		}
 		s.frames = s.frames[:len(s.frames)-1]
+		if f.deferRet && len(s.frames) > 0 {
+			break // a deferred call returned: the caller re-executes its RunDefers
+		}
 		if f.call == nil || len(s.frames) == 0 {
 			s.ret = vals
 			s.done = true
@@ -515,7 +540,7 @@ func (e *Engine) step(s *State) []*State {
 		s.dead, s.done = true, true
 		adv = false
 	case *ssa.Call:
-		adv = e.call(s, f, x)
+		adv = e.call(s, f, &x.Call, x, false)
 	default:
 		panic(fmt.Sprintf("unsupported instruction %T: %s in %s", in, in, f.fn))
 	}
@@ -527,6 +552,47 @@ func (e *Engine) step(s *State) []*State {
 		e.pending = nil
 	}
 	return forks
+}
+
+// structEq is field-wise equality of comparable struct values.
+func (e *Engine) structEq(s *State, a, b StructV) Term {
+	var parts []Term
+	for i := range a.F {
+		switch x := a.F[i].(type) {
+		case Term:
+			parts = append(parts, eq(x, b.F[i].(Term)))
+		case StructV:
+			parts = append(parts, e.structEq(s, x, b.F[i].(StructV)))
+		case PtrV:
+			y := b.F[i].(PtrV)
+			switch {
+			case x.Nil && y.Nil:
+			case x.Nil:
+				parts = append(parts, e.ptrIsNil(y))
+			case y.Nil:
+				parts = append(parts, e.ptrIsNil(x))
+			default:
+				parts = append(parts, eq(x.Ref, y.Ref))
+			}
+		case StrV:
+			y := b.F[i].(StrV)
+			if x.Const != nil && y.Const != nil {
+				parts = append(parts, boolT(*x.Const == *y.Const))
+			} else {
+				parts = append(parts, eq(e.strTerm(s, x), e.strTerm(s, y)))
+			}
+		default:
+			panic(fmt.Sprintf("struct comparison with a %T field", x))
+		}
+	}
+	return e.name(s, and(parts...))
+}
+
+func (e *Engine) strTerm(s *State, v StrV) Term {
+	if v.Const != nil {
+		return e.strConst(s, *v.Const)
+	}
+	return v.T
 }
 
 // typeAssert models x.(T) and x.(T) with comma-ok. A boxed value of known dynamic type is decided statically;
@@ -820,12 +886,16 @@ func (e *Engine) havoc(s *State, f *Frame, h *ssa.BasicBlock) {
 }
 
 // call handles builtins, intrinsics, and inlines static callees. Returns whether to advance.
-func (e *Engine) call(s *State, f *Frame, x *ssa.Call) bool {
+func (e *Engine) call(s *State, f *Frame, cc *ssa.CallCommon, x ssa.Value, deferred bool) bool {
 	var args []Val
-	for _, a := range x.Call.Args {
-		args = append(args, e.get(s, f, a))
+	if deferred {
+		args = f.deferArgs
+	} else {
+		for _, a := range cc.Args {
+			args = append(args, e.get(s, f, a))
+		}
 	}
-	if b, ok := x.Call.Value.(*ssa.Builtin); ok {
+	if b, ok := cc.Value.(*ssa.Builtin); ok {
 		switch b.Name() {
 		case "len":
 			switch v := args[0].(type) {
@@ -859,7 +929,7 @@ func (e *Engine) call(s *State, f *Frame, x *ssa.Call) bool {
 			e.msetCard(s, m, e.name(s, ite(pres, isub(e.mcard(s, m), intT(1)), e.mcard(s, m))))
 			e.mwrite(s, m, "p", "Bool", k, boolT(false))
 		case "append":
-			return e.appendB(s, f, x, args[0].(SliceV), args[1].(SliceV))
+			return e.appendB(s, f, x, args[0].(SliceV), args[1])
 		case "ssa:deferstack", "ssa:wrapnilchk":
 			f.env[x] = PtrV{Nil: true}
 		default:
@@ -869,43 +939,55 @@ func (e *Engine) call(s *State, f *Frame, x *ssa.Call) bool {
 	}
 	var fn *ssa.Function
 	var bind []Val
-	if x.Call.IsInvoke() {
-		iv := e.get(s, f, x.Call.Value).(IfaceV)
-		e.oblig(s, "safe.nil:invoke", not(iv.IsNil))
+	if cc.IsInvoke() {
+		var iv IfaceV
+		if deferred {
+			iv = f.deferRecv.(IfaceV)
+		} else {
+			iv = e.get(s, f, cc.Value).(IfaceV)
+		}
+		e.oblig(s, "safe.nil.invoke", not(iv.IsNil))
 		if pv, ok := iv.V.(PtrV); ok && iv.Dyn != nil { // concrete dynamic type known: static dispatch
-			m := e.prog.LookupMethod(iv.Dyn, x.Call.Method.Pkg(), x.Call.Method.Name())
+			m := e.prog.LookupMethod(iv.Dyn, cc.Method.Pkg(), cc.Method.Name())
 			if m == nil {
 				panic("method not found for " + iv.Dyn.String())
 			}
-			s.frames = append(s.frames, e.newFrame(s, m, append([]Val{pv}, args...), nil, x, false))
-			return false
+			return e.callFn(s, f, m, append([]Val{pv}, args...), nil, x, deferred)
 		}
-		// unknown implementation: the result is an uninterpreted function of the receiver identity
-		rs := x.Call.Method.Type().(*types.Signature).Results()
-		if rs.Len() != 1 || len(args) != 0 {
-			panic("interface call with arguments / several results unsupported: " + x.String())
-		}
-		so, _ := sortOf(rs.At(0).Type())
-		uf := "ufm_" + x.Call.Method.Name()
-		s.defs = append(s.defs, fmt.Sprintf("(declare-fun %s (Ref) %s)", uf, so))
-		t := e.name(s, app(uf, so, e.ifaceRef(iv)))
-		if so == "Str" {
-			f.env[x] = StrV{T: t}
-		} else {
-			f.env[x] = t
-		}
+		f.env[x] = e.unknownCall(s, cc.Method.FullName(), cc.Method.Type().(*types.Signature), iv, args)
 		return true
 	}
-	switch v := x.Call.Value.(type) {
+	switch v := cc.Value.(type) {
 	case *ssa.Function:
 		fn = v
 	default:
-		fv := e.get(s, f, v).(FuncV)
+		var fv FuncV
+		if deferred {
+			fv = f.deferRecv.(FuncV)
+		} else {
+			fv = e.get(s, f, v).(FuncV)
+		}
 		fn, bind = fv.Fn, fv.Bind
+		if fn == nil {
+			e.oblig(s, "safe.nil.funcvalue", boolT(false))
+			s.dead, s.done = true, true
+			return false
+		}
 	}
+	return e.callFn(s, f, fn, args, bind, x, deferred)
+}
+
+// callFn dispatches a call to a known function: intrinsics, stubs, contracts, or inlining.
+func (e *Engine) callFn(s *State, f *Frame, fn *ssa.Function, args []Val, bind []Val, x ssa.Value, deferred bool) bool {
 	name := fn.Name()
 	if fn.Pkg != nil && strings.HasSuffix(fn.Pkg.Pkg.Path(), "internal/verifspec") {
 		name = "vs" + name
+	}
+	if strings.HasPrefix(name, "vsTrace") {
+		if v, ok := e.traceIntrinsic(s, name, args); ok {
+			f.env[x] = v
+			return true
+		}
 	}
 	switch {
 	case strings.HasPrefix(name, "vsOld"): // vsOld(f): evaluate closure f in the heap of function entry
@@ -1074,7 +1156,12 @@ func (e *Engine) call(s *State, f *Frame, x *ssa.Call) bool {
 		e.inlined = map[string]bool{}
 	}
 	e.inlined[shortName(fn.String())] = true
-	s.frames = append(s.frames, e.newFrame(s, fn, args, bind, x, false))
+	nf := e.newFrame(s, fn, args, bind, x, false)
+	nf.deferRet = deferred
+	if x == nil || deferred {
+		nf.call = nil
+	}
+	s.frames = append(s.frames, nf)
 	return false
 }
 
@@ -1135,7 +1222,7 @@ func (e *Engine) copyB(s *State, dst SliceV, srcv Val) Term {
 	jt := Term{S: j, Sort: ISort(), C: nil}
 	inR := and(ile(dst.Off, jt), ilt(jt, iadd(dst.Off, n)))
 	rhs := ite(inR, sel(srcArr, iadd(isub(jt, dst.Off), src.Off), so), sel(dstArr, jt, so))
-	e.assume(s, Term{S: fmt.Sprintf("(forall ((%s %s)) (= (select %s %s) %s))", j, ISort(), na.S, j, rhs.S), Sort: "Bool", C: nil})
+	e.axiom(s, na, Term{S: fmt.Sprintf("(forall ((%s %s)) (= (select %s %s) %s))", j, ISort(), na.S, j, rhs.S), Sort: "Bool", C: nil})
 	e.hset(s, nm, e.name(s, sto(m, dst.Ref, na)), HWrite{Ref: dst.Ref, Val: na, Whole: true})
 	return n
 }
@@ -1154,7 +1241,8 @@ func (e *Engine) mapPresentArr(s *State, m MapV) Term {
 }
 
 // appendB models append(h, p...) exactly: in place when capacity allows, otherwise a fresh array.
-func (e *Engine) appendB(s *State, f *Frame, x *ssa.Call, h, p SliceV) bool {
+func (e *Engine) appendB(s *State, f *Frame, x ssa.Value, h SliceV, pv Val) bool {
+	p := pv.(SliceV)
 	so := elemSort(h.Elem)
 	nm := "M_" + sortTag(so)
 	n := iadd(h.Len, p.Len)
@@ -1170,7 +1258,7 @@ func (e *Engine) appendB(s *State, f *Frame, x *ssa.Call, h, p SliceV) bool {
 			start := iadd(h.Off, h.Len)
 			in := and(ile(start, jt), ilt(jt, iadd(start, p.Len)))
 			rhs := ite(in, sel(sel(m, p.Ref, arrSort(so)), iadd(isub(jt, start), p.Off), so), sel(sel(m, h.Ref, arrSort(so)), jt, so))
-			e.assume(st, Term{S: fmt.Sprintf("(forall ((%s %s)) (= (select %s %s) %s))", j, ISort(), na.S, j, rhs.S), Sort: "Bool"})
+			e.axiom(st, na, Term{S: fmt.Sprintf("(forall ((%s %s)) (= (select %s %s) %s))", j, ISort(), na.S, j, rhs.S), Sort: "Bool"})
 			e.hset(st, nm, e.name(st, sto(m, h.Ref, na)), HWrite{Ref: h.Ref, Val: na, Whole: true})
 			e.top(st).env[x] = SliceV{h.Ref, h.Off, n, h.Cap, h.Elem}
 			return
@@ -1179,7 +1267,7 @@ func (e *Engine) appendB(s *State, f *Frame, x *ssa.Call, h, p SliceV) bool {
 		inH := and(ile(intT(0), jt), ilt(jt, h.Len))
 		inP := and(ile(h.Len, jt), ilt(jt, n))
 		rhs := ite(inH, sel(sel(m, h.Ref, arrSort(so)), iadd(h.Off, jt), so), ite(inP, sel(sel(m, p.Ref, arrSort(so)), iadd(isub(jt, h.Len), p.Off), so), zeroOf(so)))
-		e.assume(st, Term{S: fmt.Sprintf("(forall ((%s %s)) (= (select %s %s) %s))", j, ISort(), na.S, j, rhs.S), Sort: "Bool"})
+		e.axiom(st, na, Term{S: fmt.Sprintf("(forall ((%s %s)) (= (select %s %s) %s))", j, ISort(), na.S, j, rhs.S), Sort: "Bool"})
 		e.hset(st, nm, e.name(st, sto(m, r, na)), HWrite{Ref: r, Val: na, Whole: true})
 		cp := e.declare(st, "cap", ISort())
 		e.assume(st, ile(n, cp))
